@@ -1031,4 +1031,6 @@ package core
 
 // C13 (D25 repaired): the write path never hands maybeInjectId a fact that carries a different _id
 //@ func maybeInjectId
+//@   modifies fact[*]
+//@   ensures[C07+C13.inject_touches_only_the_id_member] forall(k, string, k != "_id" ==> has(fact, k) == old(has(fact, k)) && fact[k] == old(fact[k]))
 //@   requires[C13.injected_id_does_not_conflict] !(writing && SystemParameters.IdInjectionTime == InjectIdAtWrite && has(fact, "_id") && ite(is(fact["_id"], string), fact["_id"].(string), "") != id)
